@@ -640,6 +640,37 @@ example : ∃ bytes, tsdEncode 7 [some 5, none, some 6] = some bytes ∧
     (by intro v hv; simp at hv; omega) (by simp) (by decide) (by decide) (by decide)
   exact ⟨bytes, h1, by rw [h2]; decide⟩
 
+/-- **The first real block of an object that was used before it ever held one.** `decoderPool.New` /
+`NewTSDDecoder(≤ 4 bytes)` create a decoder whose buffer, bit reader and XOR decoder are still nil. Any history on
+it — `Next()` moving the slot cursor, `HasValue/Value/GetValue/Seek` answering from nil receivers, short blocks
+rejected by `Reset` (error flag set) — and then the first real `Reset` / `ResetWithTimeRange`: the first-use
+branch of the private `reset` clears cursor and error exactly as the re-arm branch does, so the block is decoded
+as by a fresh decoder. -/
+theorem tsd_first_real_block_after_unarmed_use (history : List DecOp) (data : List Nat) (s e : Nat) (h : 4 < data.length) :
+    (runDec Dec.zero history).reset data = Dec.fresh data ∧
+    ((runDec Dec.zero history).reset data).idx = 0 ∧ ((runDec Dec.zero history).reset data).err = false ∧
+    (runDec Dec.zero history).resetWithTimeRange data s e = Dec.zero.resetWithTimeRange data s e ∧
+    ((runDec Dec.zero history).resetWithTimeRange data s e).idx = 0 ∧
+    ((runDec Dec.zero history).resetWithTimeRange data s e).err = false := by
+  have h1 := tsd_decoder_reset_eq_fresh (runDec Dec.zero history) data h
+  have h2 := tsd_decoder_reset_range_eq_fresh (runDec Dec.zero history) data s e
+  have hn : ¬ data.length ≤ 4 := by omega
+  refine ⟨h1, ?_, ?_, h2, ?_, ?_⟩
+  · rw [h1]; simp [Dec.fresh, h, Dec.reset, hn, Dec.reset']
+  · rw [h1]; simp [Dec.fresh, h, Dec.reset, hn, Dec.reset']
+  · rw [h2]; simp [Dec.resetWithTimeRange, Dec.reset']
+  · rw [h2]; simp [Dec.resetWithTimeRange, Dec.reset']
+
+/-- non-vacuity: such histories do leave the un-armed object with a moved cursor and a pending error -/
+example : let d := runDec Dec.zero [.next, .hasValue, .value, .reset [1, 2]]
+    d.inited = false ∧ d.idx = 1 ∧ d.err = true := by decide
+
+/-- TIE: in the source, `TSDDecoder.reset` clears `idx` and `err` AFTER the if/else, i.e. on the first-use path
+as well as on the re-arm path; no branch returns early -/
+theorem tsd_decoder_private_reset_shape_expected :
+    Generated.C14.tsdDecoderPrivateResetShape = ["if{", "set:buf", "set:reader", "set:values", "}else{",
+      "call:values.Reset", "call:buf.SetBuf", "}", "set:idx", "set:err"] := rfl
+
 /-! ## 7c. malformed input: the error branches of the decoders -/
 
 /-- XOR decoder: once an error is recorded, `Next()` is `false` and nothing moves until `Reset` -/
